@@ -1,11 +1,11 @@
 import json, os, subprocess
 
 SPEC = {
-    "lean_modules": ["SemaModel.C02.Props"],
-    "lean_dirs": ["SemaModel/C02"],
+    "lean_modules": ["SemaModel.C02.Props", "SemaModel.Compose.Props"],
+    "lean_dirs": ["SemaModel/C02", "SemaModel/Compose"],
     "harness": "c02",
-    "harness_args": {"quick": ["-shards", 48, "-batches", 14, "-searches", 18],
-                     "thorough": ["-shards", 500, "-batches", 22, "-searches", 24]},
+    "harness_args": {"quick": ["-shards", 48, "-batches", 14, "-searches", 18, "-searchx", 6],
+                     "thorough": ["-shards", 500, "-batches", 22, "-searches", 24, "-searchx", 8]},
     "timeout": {"quick": 600, "thorough": 3000},
     "level": "proof",
     "tie": "T2: tools/facts_c02 extracts (go/ast) the operator table of IndexInverted.Search, the arms of processChange and getOperation, the array combinators and what string.go lower-cases into Generated/FactsC02.lean on every run; SemaModel/C02/Lemmas.lean pins each table next to the model definition transcribing it; T1: the key functions in every theorem are the toByteSortable_* definitions of SemaModel/Generated/Sortable.lean, regenerated from shard/index/inverted/sortable.go on every run; T3: the hand-written model of inverted.go / string.go / array.go / dispatch.go / search.go (SemaModel/C02/Model.lean) and a real shard (bbolt file and memory backend) are run on the same histories of write batches and queries, comparing every query answer and a dump of every index bucket after every batch; the specification of each query is additionally evaluated straight from the documents against the real answers (oracle)",
@@ -14,8 +14,13 @@ SPEC = {
         "Sema.C02.C02_int_search", "Sema.C02.C02_float_search", "Sema.C02.C02_string_search", "Sema.C02.C02_stringArray_search",
         "Sema.C02.C02_step", "Sema.C02.C02_history", "Sema.C02.C02_tree", "Sema.C02.C02_exact",
         "Sema.C02.C02_only_live", "Sema.C02.C02_id_lookup", "Sema.C02.C02_lacking_field", "Sema.C02.C02_rejected_unchanged",
+        # the composition C01 + C02 + C06 (SemaModel/Compose, notes/Compose.md): end-to-end statements about the shard API
+        "Sema.Compose.Compose_step", "Sema.Compose.Compose_inv_history", "Sema.Compose.Compose_insert_fresh",
+        "Sema.Compose.Compose_rejected_noop", "Sema.Compose.Compose_filter_state", "Sema.Compose.Compose_filter_exact",
+        "Sema.Compose.Compose_select_star", "Sema.Compose.Compose_write_read", "Sema.Compose.Compose_histOK_of_final",
     ],
     "trusted_base": [
+        "SemaModel/Compose/Model.lean (the combined model: C01's point store + C02's indexes + C06's answer pipeline; new in it: the change stream of a batch, the index verdict, one write step for both, searchPoints) is tied to the code by a second correspondence run: the compiled combined model (`semadriver C02 compose`) answers every op line of the same histories — allocating the node ids itself, compared with the ones the shard allocated — plus `searchx` lines (select / sort / offset / limit through the whole SearchPoints pipeline); a stored top-level value is opaque text in the point store and is read by two parameters (Conv.idx, Conv.sel) — theorems hold for every such pair, the driver's pair is the value syntax of the op lines",
         "SemaModel/C02/Model.lean is a hand transcription of inverted.go, string.go, array.go, dispatch.go/utils.go (getOperation, casts) and search.go; tied to the code by the correspondence run only (answers and bucket dumps)",
         "roaring bitmaps are finite sets of node ids (CheckedAdd/CheckedRemove/FastOr/FastAnd/IsEmpty/ToBytes/ReadFrom trusted); the stored bytes are modelled as the concatenated little-endian ids",
         "bbolt / memory backend: a bucket is a key-sorted association list, Cursor.Seek = first key >= k (Base/KV.lean); the memory backend's RangeScan/PrefixScan are filters over the sorted keys, i.e. the right-hand sides of rangeScan_spec / prefixScan_spec",
@@ -31,6 +36,64 @@ SPEC = {
         "on the file backend no indexed string (or string-array element) folds to the empty string: bbolt refuses the empty key and the batch is rejected (DESIGN section 8 no. 14); run on the real code in a child process, recorded, not judged",
     ],
 }
+
+
+def run(ctx):
+    """The standard correspondence (C02 model on ops.txt) and, on the same histories, the correspondence of the
+    COMBINED model of SemaModel/Compose (`semadriver C02 compose` on compose/ops.txt: every write, search and
+    bucket dump again, node ids allocated by the model, plus the `searchx` full-pipeline requests)."""
+    r = ctx["runner"]
+    rundir, tier = ctx["rundir"], ctx["tier"]
+    res = {"stats": {}, "disagreements": [], "compared": 0, "broken": []}
+    if not ctx["hok"]:
+        return res
+    args = [ctx["hbin"], "-seed", str(ctx["seed"]), "-out", rundir] + [str(a) for a in SPEC["harness_args"][tier]]
+    rc, hout, dt = r.sh(args, env=r.GOENV, timeout=SPEC["timeout"][tier])
+    r.log(f"harness c02: rc={rc} ({dt:.1f}s)")
+    if rc != 0 or not os.path.exists(os.path.join(rundir, "stats.json")):
+        res["broken"].append(("harness-run", "c02", hout[-3000:]))
+        return res
+    stats = json.load(open(os.path.join(rundir, "stats.json")))
+    if not ctx["dok"]:
+        res["broken"].append(("driver-build", "semadriver", "lake build semadriver failed"))
+        res["stats"] = stats
+        return res
+    p = lambda *a: os.path.join(rundir, *a)
+    have_compose = os.path.exists(p("compose", "ops.txt"))
+    # the two model runs are independent: run them side by side
+    from concurrent.futures import ThreadPoolExecutor
+    with ThreadPoolExecutor(max_workers=2) as ex:
+        f1 = ex.submit(r.run_driver, "C02", p("ops.txt"), p("model.txt"))
+        f2 = ex.submit(r.run_driver, "C02", p("compose", "ops.txt"), p("compose", "model.txt"), ("compose",)) if have_compose else None
+        ok, err = f1.result()
+        ok2, err2 = f2.result() if f2 else (False, "")
+    if not ok:
+        res["broken"].append(("driver-run", "semadriver C02", err[-2000:]))
+    else:
+        dis, n = r.diff_lines(p("ops.txt"), p("impl.txt"), p("model.txt"))
+        res["disagreements"] += dis
+        res["compared"] += n
+    if have_compose:
+        if not ok2:
+            res["broken"].append(("driver-run", "semadriver C02 compose", err2[-2000:]))
+        else:
+            dis, n = r.diff_lines(p("compose", "ops.txt"), p("compose", "impl.txt"), p("compose", "model.txt"))
+            for d in dis:
+                d["mode"] = "combined model (semadriver C02 compose); replay the history up to this line"
+            res["disagreements"] += dis
+            res["compared"] += n
+            cst = json.load(open(p("compose", "stats.json")))
+            stats["compose_op_lines"] = cst.get("evaluations", 0)
+            stats["compose_distinct_nontrivial"] = cst.get("distinct_nontrivial", 0)
+            for k, v in cst.get("distribution", {}).items():
+                if k.startswith("searchx"):
+                    stats.setdefault("distribution", {})[k] = v
+                    stats["evaluations"] = stats.get("evaluations", 0) + v
+            stats["samples"] = stats.get("samples", []) + [s for s in cst.get("samples", []) if s.startswith("searchx")][:4]
+    else:
+        res["broken"].append(("harness-run", "c02 -searchx", "the harness wrote no compose/ops.txt"))
+    res["stats"] = stats
+    return res
 
 
 def search(ctx):
